@@ -402,7 +402,13 @@ func checkC19(tier string) int {
 		scripts: []string{"evidence", "stakingb", "transfers"},
 		nhQ:     8, nhT: 50, blQ: 48, blT: 150,
 		params: func(i int, hseed int64) world.Params {
-			return world.Params{Frankenstein: int64(i % 2), NumGenesisVals: 4 + i%4, NumCandidates: 1, TopValidators: 8, ReleaseTime: int64(i % 3 / 2)}
+			p := world.Params{Frankenstein: int64(i % 2), NumGenesisVals: 4 + i%4, NumCandidates: 1, TopValidators: 8, ReleaseTime: int64(i % 3 / 2)}
+			if i%8 == 5 {
+				// the missed-votes window of a production chain (the smallest the option validation admits): the run
+				// ends long before the window is complete, verdicts freeze all the same
+				p.BlockVotesDiff, p.MinVotesRequired = 1000, 700
+			}
+			return p
 		},
 		newMon: func(w *world.World) func(run *hist.Runner, blk *hist.Block) []mon.Finding {
 			return wrapStateful(mon.NewC19().OnBlock)
